@@ -137,6 +137,11 @@ theorem plain_decoded (lp : Nat → Option Nat) (p : Nat) (i : Insn) (hwt : wt i
       subst h
       refine .single (.invokeinterface idx c) (by simp [u16b]) (fun rest => ?_) (by simp [denote1, ha])
       simp [u16b, decodeOne_invokeinterface, u16_u16b idx hwt]
+  | invokedynamic idx =>
+    simp only [encInsn] at h; cases h
+    simp only [wt, decide_eq_true_eq] at hwt
+    refine .single (.invokedynamic idx) (by simp [u16b]) (fun rest => ?_) (by simp [denote1])
+    simp [u16b, decodeOne_invokedynamic, u16_u16b idx hwt]
   | newarray t =>
     simp only [encInsn] at h; cases h
     exact .single (.newarray t) (by simp) (fun rest => by simp [decodeOne_newarray]) (by simp [denote1])
